@@ -1,9 +1,12 @@
 #!/bin/bash
-# try_seed.sh <ID> <dir-with-patch.diff> [tier]: apply a seeded change to /repo, run the check, undo it.
+# try_seed.sh <ID> <dir-with-patch.diff> [tier]: run the check against a scratch worktree of /repo HEAD carrying the
+# seeded change (VERIF_REPO), with evidence/replays written to a scratch directory (VERIF_OUT).  /repo is not touched,
+# so several trials and ordinary checks can run at the same time.
 set -u
-ID="$1"; D="$2"; TIER="${3:-quick}"
-if [ -n "$(git -C /repo status --porcelain)" ]; then echo "/repo not clean"; exit 2; fi
-git -C /repo apply "$D/patch.diff" 2>/dev/null || git -C /repo apply -C1 "$D/patch.diff" || exit 2
-trap 'git -C /repo checkout -- . ' EXIT
-cd /verif && ./check "$ID" --tier "$TIER" 2>&1 | grep -E "VIOLATION|KNOWN|CHECK-ERROR|^  \(" | head -8
+ID="$1"; D="$(readlink -f "$2")"; TIER="${3:-quick}"
+WT=$(mktemp -d /tmp/tseed.XXXXXX); rmdir "$WT"; OUT=$(mktemp -d /tmp/tseedout.XXXXXX)
+git -C /repo worktree add -q --detach "$WT" HEAD || exit 2
+trap 'git -C /repo worktree remove --force "$WT" >/dev/null 2>&1; rm -rf "$OUT"' EXIT
+( cd "$WT" && { git apply "$D/patch.diff" 2>/dev/null || git apply -C1 "$D/patch.diff" || git apply -3 "$D/patch.diff"; } ) || { echo "patch does not apply"; exit 2; }
+cd /verif && VERIF_REPO="$WT" VERIF_OUT="$OUT" ./check "$ID" --tier "$TIER" 2>&1 | grep -E "VIOLATION|KNOWN|CHECK-ERROR|^  \(" | head -8
 echo "exit=${PIPESTATUS[0]}"
